@@ -81,6 +81,9 @@ func catalogue(tier string) []shp {
 		// a rectangle that contains the other operand at every offset (and, as B,
 		// covers it), so that holes and islands lie strictly inside a *Bounds operand
 		shp{"box[-9,17]x[-9,17]", [][][][2]int64{{box(-9, -9, 17, 17)}}, true, false},
+		// a small member listed before one that is wider on both sides (the extent of
+		// the whole is not the extent of its first member widened on one side)
+		shp{"small+wide", [][][][2]int64{{box(3, 0, 4, 1)}, {box(0, 2, 7, 3)}}, false, false},
 	)
 	return out
 }
